@@ -21,7 +21,7 @@ import sys
 import types
 import warnings
 from dataclasses import MISSING, field, fields, is_dataclass, make_dataclass
-from decimal import Decimal
+from decimal import Decimal, InvalidOperation
 from enum import Enum
 from fractions import Fraction
 from typing import Any
@@ -58,12 +58,32 @@ def num_key(x):
         if math.isinf(x):
             return "inf" if x > 0 else "-inf"
     else:  # Decimal
+        if x.is_snan():
+            return "snan"
         if x.is_nan():
             return "nan"
         if x.is_infinite():
             return "inf" if x > 0 else "-inf"
     f = Fraction(x)
     return [str(f.numerator), str(f.denominator)]
+
+
+def f64_key(x):
+    """the binary64 value as the Lean model holds it: [neg, "m", q] with x = ±m·2^q, m < 2^53, q ≥ -1074"""
+    if math.isnan(x):
+        return "nan"
+    if math.isinf(x):
+        return "inf" if x > 0 else "-inf"
+    neg = math.copysign(1.0, x) < 0
+    if x == 0:
+        return [neg, "0", -1074]
+    fr, e = math.frexp(abs(x))  # abs(x) = fr * 2**e, 0.5 <= fr < 1
+    m, q = int(fr * (1 << 53)), e - 53
+    if q < -1074:  # subnormal: fewer significant bits
+        m >>= -1074 - q
+        q = -1074
+    assert math.ldexp(m, q) == abs(x)
+    return [neg, str(m), q]
 
 
 def ref_of(cls):
@@ -81,7 +101,7 @@ def to_json(o):
     if type(o) is int:
         return {"t": "int", "v": str(o)}
     if type(o) is float:
-        return {"t": "float", "repr": repr(o), "num": num_key(o)}
+        return {"t": "float", "repr": repr(o), "num": num_key(o), "f64": f64_key(o)}
     if type(o) is str:
         return {"t": "str", "v": o, "repr": repr(o)}
     if isinstance(o, bytes):
@@ -342,6 +362,8 @@ def impl_code(a):
         text = _SER.render(obj, var)
     except SerializerError:
         return ok({"text": "RAISES:SerializerError", "outcome": "refused:SerializerError"})
+    except InvalidOperation:
+        return ok({"text": "RAISES:InvalidOperation", "outcome": "refused:InvalidOperation"})
     outcome, _, _ = run_source(text, var, obj)
     return ok({"text": text, "outcome": outcome})
 
@@ -374,11 +396,14 @@ def compare_code(mo, io, a):
         return False
     if not h.get("reprs"):
         return False  # the repr() of some str/bytes leaf is not what the model's pyReprStr/pyReprBytes computes
-    if all(h.get(k) for k in ("wf", "dom", "renders", "nesting")):
+    if all(h.get(k) for k in ("wf", "dom", "init", "renders", "nesting", "quiet")):
         STATS["claimed"] += 1
         STATS["claimed_equal"] += io["ok"]["outcome"] == "equal"
         if io["ok"]["outcome"] != "equal" or mo["ok"]["outcome"] != "equal":
             return False
+    if mo["ok"]["text"] == "RAISES:unmodelled":
+        # a signaling NaN inside a dict/set comparison: the model does not say whether render raises
+        return mo["ok"]["outcome"] == "unmodelled" and has_snan(a)
     if mo["ok"]["text"] != io["ok"]["text"]:
         return False
     return mo["ok"]["outcome"] in ("unmodelled", io["ok"]["outcome"])
@@ -475,8 +500,10 @@ STRS = ["", "a", "en", "a'b", 'a"b', "a'b\"c", "a\nb", "€", "\\", "a\\b", "\x7
         "\x00\x01\x1f", "\r\n", "\x80\x9f", "\xa0\xad", "\u0378", "\u2028\u2029", "\ufeff", "\ue000", "\U0001f600",
         "\U000e0001", "\U0010ffff", "\\'", '\\"', "'\\", "x\x7fy\xe9z",
         "1", "0", "None", "True", "1.5", "()", "[]", "b'ab'"]  # the last row: str() look-alikes of other defaults
-FLOATS = [0.0, -0.0, 1.0, 1.5, 0.1, 1e22, 1e-7, -2.5e-300, float("inf"), float("-inf"), float("nan"), 3.0]
-DECS = ["0", "1", "1.50", "-0.0", "0.1", "1E+3", "3", "NaN", "Infinity", "-Infinity", "-7.25"]
+FLOATS = [0.0, -0.0, 1.0, 1.5, 0.1, 1e22, 1e-7, -2.5e-300, float("inf"), float("-inf"), float("nan"), 3.0,
+          5e-324, 2.2250738585072014e-308, 2.225073858507201e-308, 1.7976931348623157e308, 1e16, 9999999999999998.0, 1e-5, 0.0001,
+          123456789012345678.0, 0.30000000000000004, -1e-323, 4.35, 2.5e-5]  # subnormals, extremes, both notations of repr
+DECS = ["0", "1", "1.50", "-0.0", "0.1", "1E+3", "3", "NaN", "Infinity", "-Infinity", "-7.25", "sNaN", "-0E-7", "1E-30", "12345678901234567890.5"]
 INTS = [0, 1, -1, 2, 3, 10**30, -5, 255]
 OPAQUES = [
     XmlDate(2000, 1, 2), XmlDate(1999, 12, 31), XmlDateTime(2000, 1, 2, 3, 4, 5), XmlDateTime(2001, 1, 2, 3, 4, 5, 600),
@@ -817,6 +844,14 @@ def hand_cases():
     for kw in ({}, {"colors": J([])}, {"header": J(None)}, {"colors": J(["red", "green"])}, {"header": inst(Hdr, version=J("2"))},
                {"colors": J([]), "sizes": J([]), "header": J(None), "name": J("")}, {"header": inst(Hdr)}):
         case(WP, inst(Pal, **kw))
+    # a signaling NaN against numeric / list / non-numeric defaults (render itself raises for the first two)
+    SN = J(Decimal("sNaN"))
+    Cn = model(MOD_A, ["Cn"], [fld("num", dv(0)), fld("flt", dv(1.5)), fld("non", dv(None)), fld("lst", df([1, "a"])), fld("emp", df([])),
+                               fld("dec", dv(Decimal("0")))])
+    for kw in ({"num": SN}, {"flt": SN}, {"non": SN}, {"lst": {"t": "list", "items": [SN, J("a")]}}, {"lst": {"t": "list", "items": [SN]}},
+               {"emp": {"t": "list", "items": [SN]}}, {"dec": SN}, {"non": {"t": "list", "items": [SN]}},
+               {"non": {"t": "dict", "items": [[J("k"), SN]]}}, {"lst": {"t": "list", "items": [J(1), SN]}}):
+        case([Cn], inst(Cn, **kw))
     # same class name in two modules
     A1 = model(MOD_A, ["Address"], [fld("x", dv(None)), fld("y", dv(0))])
     A2 = model(MOD_B, ["Address"], [fld("x", dv(None)), fld("w", dv(0))])
@@ -1396,22 +1431,6 @@ def same_value(a, b):
     return False
 
 
-def in_domain(a):
-    """instances whose init=False attributes still hold the class default (the
-    constructor cannot set them; see ASSUMPTIONS)"""
-    by_ref = {(e["module"], tuple(e["path"])): e for e in a["world"]}
-    for j in walk_vals(a["val"]):
-        if j["t"] != "model":
-            continue
-        e = by_ref[(j["module"], tuple(j["path"]))]
-        for f, (_, v) in zip(e["fields"], j["attrs"]):
-            if not f["init"]:
-                d = f["default"]
-                if d is None or d.get("value", d.get("factory")) != v:
-                    return False
-    return True
-
-
 def graph_name_clash(obj):
     """Own traversal of the object graph (everything reachable, elided or not):
     does one outermost class name belong to two modules?  Only then may
@@ -1441,8 +1460,6 @@ def graph_name_clash(obj):
 
 
 def oracle_check(a):
-    if not in_domain(a):
-        return None
     b, obj = real_case(a)
     var = a.get("var", "obj")
     try:
@@ -1453,6 +1470,8 @@ def oracle_check(a):
         if graph_name_clash(obj):
             return None
         return f"render refused an object graph without any class-name clash: {e}"
+    except Exception as e:  # noqa: BLE001
+        return f"render raised {type(e).__name__}: {e}"
     outcome, detail, got = run_source(text, var, obj)
     if outcome.startswith("exc:") or outcome == "unbound":
         return f"exec of the rendered source raised {detail}"
@@ -1461,36 +1480,89 @@ def oracle_check(a):
     return None
 
 
+def moved_init_false(a):
+    """(path of) model instances holding an init=False attribute that differs from the class default"""
+    by_ref = {(e["module"], tuple(e["path"])): e for e in a["world"]}
+    for j in walk_vals(a["val"]):
+        if j["t"] != "model":
+            continue
+        e = by_ref[(j["module"], tuple(j["path"]))]
+        for f, (_, v) in zip(e["fields"], j["attrs"]):
+            if not f["init"]:
+                d = f["default"]
+                if d is None or d.get("value", d.get("factory")) != v:
+                    return True
+    return False
+
+
+def has_snan(a):
+    return any(j["t"] == "opaque" and j.get("num") == "snan" for j in walk_vals(a["val"]))
+
+
+def _map_val(j, fn):
+    r = fn(j)
+    if r is not None:
+        return r
+    t = j["t"]
+    if t in ("list", "tuple", "set"):
+        return {**j, "items": [_map_val(x, fn) for x in j["items"]]}
+    if t == "dict":
+        return {**j, "items": [[_map_val(k, fn), _map_val(v, fn)] for k, v in j["items"]]}
+    if t == "model":
+        return {**j, "attrs": [[n, _map_val(v, fn)] for n, v in j["attrs"]]}
+    return j
+
+
+def _reset_init_false(a):
+    by_ref = {(e["module"], tuple(e["path"])): e for e in a["world"]}
+
+    def fix(j):
+        if j["t"] != "model":
+            return None
+        e = by_ref[(j["module"], tuple(j["path"]))]
+        attrs = []
+        for f, (n, v) in zip(e["fields"], j["attrs"]):
+            d = f["default"]
+            if not f["init"] and d is not None:
+                v = d.get("value", d.get("factory"))
+            attrs.append([n, _map_val(v, fix)])
+        return {**j, "attrs": attrs}
+
+    return {**a, "val": _map_val(a["val"], fix)}
+
+
+# (finding id, "the input lies in the region", "the failure is the one the finding describes", input with the trigger removed)
+KNOWN_REGIONS = [
+    ("C18-enum-member-name", has_odd_enum,
+     lambda msg: re.match(r"exec of the rendered source raised (SyntaxError|AttributeError|NameError)\b", msg) is not None,
+     lambda a: {**a, "val": _map_val(a["val"], lambda j: {"t": "none"} if j["t"] == "enum" and odd_enum_name(j["member"]) else None)}),
+    ("C18-init-false-attribute", moved_init_false,
+     lambda msg: msg.startswith("rendered source evaluates to"),
+     _reset_init_false),
+    ("C18-decimal-snan-compare", has_snan,
+     lambda msg: msg.startswith("render raised InvalidOperation"),
+     lambda a: {**a, "val": _map_val(a["val"], lambda j: J(Decimal("NaN")) if j["t"] == "opaque" and j.get("num") == "snan" else None)}),
+]
+
+
 def covered(a, msg):
-    """A failing input belongs to the listed finding when the value holds an
-    enum member whose name `Cls.<name>` cannot denote (a predicate on the input)
-    *and* the property holds once exactly those members are replaced by None -
-    so nothing else is wrong with it."""
+    """A failing input belongs to a listed finding when (1) it lies in that
+    finding's region (a predicate on the input), (2) the failure is of the kind
+    the finding describes, and (3) the property holds once exactly the triggers
+    of the known findings are removed - so nothing else is wrong with it."""
     try:
         hit = covered_nesting(a, msg)
         if hit:
             return hit
-        if not has_odd_enum(a):
+        regions = [r for r in KNOWN_REGIONS if r[1](a)]
+        named = [r for r in regions if r[2](msg)]
+        if not named:
             return None
-        # the defect shows as source that does not compile or that names something the class does not have
-        # (`Cls.a-b`, `Cls.class`, `Cls.1x`): a wrong VALUE or a refusal on such an input is something else
-        if not re.match(r"exec of the rendered source raised (SyntaxError|AttributeError|NameError)\b", msg):
-            return None
-
-        def fix(j):
-            t = j["t"]
-            if t == "enum" and odd_enum_name(j["member"]):
-                return {"t": "none"}
-            if t in ("list", "tuple", "set"):
-                return {**j, "items": [fix(x) for x in j["items"]]}
-            if t == "dict":
-                return {**j, "items": [[fix(k), fix(v)] for k, v in j["items"]]}
-            if t == "model":
-                return {**j, "attrs": [[n, fix(v)] for n, v in j["attrs"]]}
-            return j
-
-        if oracle_check({**a, "val": fix(a["val"])}) is None:
-            return "C18-enum-member-name"
+        fixed = a
+        for r in regions:
+            fixed = r[3](fixed)
+        if oracle_check(fixed) is None:
+            return named[0][0]
     except Exception:  # noqa: BLE001
         return None
     return None
@@ -1577,7 +1649,45 @@ def finding_nesting_limit():
     return outs[0] == "equal" and outs[1].startswith("exc:SyntaxError") and "too many nested" in outs[1], " / ".join(outs)
 
 
-FINDINGS = {"C18-enum-member-name": finding_enum_member_name, "C18-nesting-limit": finding_nesting_limit}
+def _finding_module():
+    m = types.ModuleType("c18find_f")
+    sys.modules["c18find_f"] = m
+    exec(  # noqa: S102
+        "from dataclasses import dataclass, field\nfrom typing import Any\n"
+        "@dataclass\nclass Doc:\n    lang: str = field(init=False, default='en')\n    total: Any = 0\n    note: Any = None\n",
+        m.__dict__,
+    )
+    return m
+
+
+def finding_init_false_attribute():
+    m = _finding_module()
+    obj = m.Doc()
+    obj.lang = "fr"  # an attribute of an init=False field, changed after construction
+    text = PycodeSerializer().render(obj)
+    outcome, _, got = run_source(text, "obj", obj)
+    untouched = m.Doc()
+    o2, _, _ = run_source(PycodeSerializer().render(untouched), "obj", untouched)
+    return outcome == "unequal" and got.lang == "en" and "lang" not in text and o2 == "equal", f"{outcome} (restored lang={getattr(got, 'lang', None)!r}) / untouched: {o2}"
+
+
+def finding_decimal_snan():
+    m = _finding_module()
+    try:
+        PycodeSerializer().render(m.Doc(total=Decimal("sNaN")))
+        first = "rendered"
+    except InvalidOperation:
+        first = "InvalidOperation"
+    second = PycodeSerializer().render(m.Doc(note=Decimal("sNaN")))  # non-numeric default: no comparison with a number
+    return first == "InvalidOperation" and "note=Decimal('sNaN')" in second, f"numeric default: {first}; None default: rendered"
+
+
+FINDINGS = {
+    "C18-enum-member-name": finding_enum_member_name,
+    "C18-nesting-limit": finding_nesting_limit,
+    "C18-init-false-attribute": finding_init_false_attribute,
+    "C18-decimal-snan-compare": finding_decimal_snan,
+}
 
 _RULE = (
     "hand-picked cases (every repr_object/literal_value/build_imports branch, each remaining and each repaired defect, cross-type default elision), "
@@ -1628,7 +1738,6 @@ TRUSTED = [
     "format pieces (indent, float(\"…\"), QName(\"…\") and its escapes for all ASCII characters, import line, enum member, bracket layout of every array kind) and dir(builtins) are regenerated by probing the live functions and tied to the model by the theorems literal_formats, layout_probes, qname_escapes_ascii",
 ]
 ASSUMPTIONS = [
-    "attributes of init=False fields hold the class default (a constructor call cannot set them); instances violating this are outside the property's domain",
     "'equal' is Python ==; for the failing-input search NaN is additionally taken equal to NaN position-wise",
     "classes are importable by module and qualified name (module-level or nested in classes, not in functions or __main__)",
     "a SerializerError from render is an accepted outcome exactly for object graphs that hold two classes of one outermost name from different modules (checked by an own traversal of the object graph)",
